@@ -68,7 +68,13 @@ func NewInterceptedRewardTransaction(
 		coordinator: coordinator,
 	}
 
-	err = inRewardTx.processFields(rewardTxBuff)
+	// the hash must identify the content, not the particular byte string received:
+	// it is computed over the canonical re-encoding of the decoded value
+	canonicalBuff, err := marshalizer.Marshal(rTx)
+	if err != nil {
+		return nil, err
+	}
+	err = inRewardTx.processFields(canonicalBuff)
 	if err != nil {
 		return nil, err
 	}
